@@ -44,33 +44,43 @@ func maskList(m uint64) []int {
 }
 
 // CheckBlocks applies the graph-based monitors to the node's emitted blocks (single epoch).
-// It returns (category, message) of the first problem or "".
-func CheckBlocks(d *lref.DAG, n *Node, byID map[hash.Event]int) (string, string) {
+// It returns (category, message) of the first problem whose category the caller judges (rep == nil: any);
+// problems of other categories are skipped so that they cannot mask the judged ones.
+func CheckBlocks(d *lref.DAG, n *Node, byID map[hash.Event]int, rep Report) (string, string) {
+	judged := func(cat string) bool {
+		return rep == nil || rep[strings.SplitN(cat, "/", 2)[0]]
+	}
 	var delivered uint64
 	for bi, b := range n.Blocks {
-		if int(b.Frame) != bi+1 {
+		if int(b.Frame) != bi+1 && judged("content") {
 			return "content/frame-numbering", fmt.Sprintf("block #%d has frame %d (frames must be consecutive from 1)", bi+1, b.Frame)
 		}
 		at, ok := byID[b.Atropos]
 		if !ok {
-			return "content/atropos-unknown", fmt.Sprintf("block #%d: atropos %s is not an event of the DAG", bi+1, b.Atropos.String())
+			if judged("content") {
+				return "content/atropos-unknown", fmt.Sprintf("block #%d: atropos %s is not an event of the DAG", bi+1, b.Atropos.String())
+			}
+			continue
 		}
-		if !d.IsRootOf(at, int(b.Frame)) {
+		if !d.IsRootOf(at, int(b.Frame)) && judged("content") {
 			return "content/atropos-not-root", fmt.Sprintf("block #%d: atropos e%d is not a root of frame %d", bi+1, at, b.Frame)
 		}
 		var got uint64
 		for _, id := range b.Events {
 			i, ok := byID[id]
 			if !ok {
-				return "content/unknown-event", fmt.Sprintf("block #%d delivered an unknown event", bi+1)
+				if judged("content") {
+					return "content/unknown-event", fmt.Sprintf("block #%d delivered an unknown event", bi+1)
+				}
+				continue
 			}
-			if got&(1<<uint(i)) != 0 || delivered&(1<<uint(i)) != 0 {
+			if (got&(1<<uint(i)) != 0 || delivered&(1<<uint(i)) != 0) && judged("content") {
 				return "content/delivered-twice", fmt.Sprintf("block #%d: event e%d delivered twice in the epoch", bi+1, i)
 			}
 			got |= 1 << uint(i)
 		}
 		want := d.Anc(at) &^ delivered
-		if got != want {
+		if got != want && judged("content") {
 			return "content/not-new-ancestry", fmt.Sprintf("block #%d (atropos e%d): delivered %v, new ancestry of the atropos is %v", bi+1, at, maskList(got), maskList(want))
 		}
 		delivered |= got
@@ -81,7 +91,7 @@ func CheckBlocks(d *lref.DAG, n *Node, byID map[hash.Event]int) (string, string)
 				wantCh = append(wantCh, idx.ValidatorID(d.IDs[v]))
 			}
 		}
-		if fmt.Sprint(wantCh) != fmt.Sprint(b.Cheaters) {
+		if fmt.Sprint(wantCh) != fmt.Sprint(b.Cheaters) && judged("cheaters") {
 			return "cheaters/list", fmt.Sprintf("block #%d (atropos e%d): cheaters %v, visible forkers in canonical order %v", bi+1, at, b.Cheaters, wantCh)
 		}
 	}
@@ -110,12 +120,15 @@ func CheckDAG(c *core.Ctx, d *lref.DAG, desc string, rep Report, cfg Config, max
 		path []int
 	}
 	table := map[uint64]seenObs{}
-	violate := func(cat, sig string, replay interface{}, format string, a ...interface{}) {
+	// violate reports a mismatch of a category this check judges and returns true; mismatches of the other
+	// categories are only counted (they belong to a sibling check) and the exploration goes on
+	violate := func(cat, sig string, replay interface{}, format string, a ...interface{}) bool {
 		if rep[cat] {
 			c.Violation(sig, replay, format, a...)
-		} else {
-			c.Count("other_category_mismatches", 1)
+			return true
 		}
+		c.Count("other_category_mismatches", 1)
+		return false
 	}
 	ideals, edges, complete := Lattice(d, maxIdeals, c.OutOfBudget, func(path []int, e int, nm uint64) bool {
 		node := NewNode(cfg, idx.Epoch(d.Epoch), vals)
@@ -144,22 +157,25 @@ func CheckDAG(c *core.Ctx, d *lref.DAG, desc string, rep Report, cfg Config, max
 				// forkers hold >= 1/3 of the weight: outside the precondition of the agreement properties
 				c.Count("byzantine_order_differences_not_judged", 1)
 			} else if prev.obs != obs {
-				violate("order", "order/state-depends-on-order", map[string]interface{}{"dag": d.String(), "family": desc, "order_a": prev.path, "order_b": seq},
-					"the same event set %v processed in orders %v and %v yields different observations:\n  A: %s\n  B: %s\n  dag: %s", maskList(nm), prev.path, seq, prev.obs, obs, d.String())
-				return false
+				if violate("order", "order/state-depends-on-order", map[string]interface{}{"dag": d.String(), "family": desc, "order_a": prev.path, "order_b": seq},
+					"the same event set %v processed in orders %v and %v yields different observations:\n  A: %s\n  B: %s\n  dag: %s", maskList(nm), prev.path, seq, prev.obs, obs, d.String()) {
+					return false
+				}
 			}
 		} else {
 			table[nm] = seenObs{obs, seq}
 		}
 		// graph-based monitors on the emitted blocks
-		if cat, msg := CheckBlocks(d, node, byID); cat != "" {
-			violate(strings.SplitN(cat, "/", 2)[0], cat, replay(), "%s [%s]", msg, replay())
-			return false
+		if cat, msg := CheckBlocks(d, node, byID, rep); cat != "" {
+			if violate(strings.SplitN(cat, "/", 2)[0], cat, replay(), "%s [%s]", msg, replay()) {
+				return false
+			}
 		}
 		// store state: LDF equals the number of blocks, roots per frame equal the reference's
 		if int(node.Store.GetLastDecidedFrame()) != len(node.Blocks) {
-			violate("content", "content/ldf", replay(), "last decided frame %d after %d blocks [%s]", node.Store.GetLastDecidedFrame(), len(node.Blocks), replay())
-			return false
+			if violate("content", "content/ldf", replay(), "last decided frame %d after %d blocks [%s]", node.Store.GetLastDecidedFrame(), len(node.Blocks), replay()) {
+				return false
+			}
 		}
 		for f := 1; f <= maxFrame+1; f++ {
 			var want []string
@@ -173,8 +189,10 @@ func CheckDAG(c *core.Ctx, d *lref.DAG, desc string, rep Report, cfg Config, max
 			sort.Strings(want)
 			sort.Strings(got)
 			if fmt.Sprint(want) != fmt.Sprint(got) {
-				violate("ref", "ref/frame-roots", replay(), "roots of frame %d: %v, reference %v [%s]", f, got, want, replay())
-				return false
+				if violate("ref", "ref/frame-roots", replay(), "roots of frame %d: %v, reference %v [%s]", f, got, want, replay()) {
+					return false
+				}
+				break
 			}
 		}
 		// independent reference: decided blocks
@@ -190,8 +208,9 @@ func CheckDAG(c *core.Ctx, d *lref.DAG, desc string, rep Report, cfg Config, max
 				for _, b := range refBlocks {
 					rb = append(rb, fmt.Sprintf("f%d:e%d", b.Frame, b.Atropos))
 				}
-				violate("ref", "ref/blocks-differ", replay(), "blocks %s, reference %v [%s]", node.BlocksString(name), rb, replay())
-				return false
+				if violate("ref", "ref/blocks-differ", replay(), "blocks %s, reference %v [%s]", node.BlocksString(name), rb, replay()) {
+					return false
+				}
 			}
 			c.Count("ref_block_comparisons", int64(len(refBlocks)))
 		} else {
